@@ -129,6 +129,60 @@ def _lock():
     return f
 
 
+# ------------------------------------------------------------------ pinned copies of the generated model (DESIGN §8.8)
+GEN = os.path.join(LEAN, "VerifModel", "Gen")
+PINNED = os.path.join(LEAN, "pinned_gen")
+GEN_FILES = {"cont.": "Cont.lean", "cmp.": "Cmp.lean", "det.": "Det.lean", "clean.": "Clean.lean",
+             "opt": "OptionTable.lean", "appearance.": "Appearance.lean", "prob.": "Prob.lean",
+             "dispatch.": "ClassTable.lean"}
+
+
+def gen_files_for(prefixes):
+    return [GEN_FILES[p] for p in prefixes if p in GEN_FILES]
+
+
+def _read(path):
+    try:
+        with open(path) as f:
+            return f.read()
+    except IOError:
+        return None
+
+
+def gen_differs(names):
+    """generated files whose current text is not the pinned text (the pinned text is what the translator
+    produced from the pinned /repo tree; `translate.py --pin` refreshes it)"""
+    return [n for n in names if _read(os.path.join(PINNED, n)) is not None
+            and _read(os.path.join(GEN, n)) != _read(os.path.join(PINNED, n))]
+
+
+def restore_pinned(names):
+    for n in names:
+        with open(os.path.join(GEN, n), "w") as f:
+            f.write(_read(os.path.join(PINNED, n)))
+
+
+def private_driver(tag):
+    """copy of the freshly built driver that no concurrent check can rebuild under our feet"""
+    global DRIVER
+    if not os.path.exists(DRIVER):
+        return
+    d = os.path.join(VERIF, "build", "drv")
+    os.makedirs(d, exist_ok=True)
+    dst = os.path.join(d, "verifdrv_%s_%d" % (tag, os.getpid()))
+    import shutil
+    shutil.copy2(DRIVER, dst)
+    DRIVER = dst
+
+
+def drop_private_driver():
+    if os.path.join("build", "drv") in DRIVER:
+        try:
+            os.remove(DRIVER)
+        except OSError:
+            pass
+
+
 def translate():
     """regenerate Gen/*.lean from /repo; returns the translator's report dict"""
     p = subprocess.run([PY, os.path.join(VERIF, "harness", "translate.py")], capture_output=True,
